@@ -270,4 +270,72 @@ def depthAll : List Value → Nat
   | v :: vs => max (depth v) (depthAll vs)
 end
 
+/-! ### serde derive: how enum variants are numbered (serde_derive 1.0.219)
+
+`#[derive(Serialize)]` writes variant number = position in the declaration, counting every variant
+(ser.rs:397-402 `variants.iter().enumerate()`); `#[derive(Deserialize)]` numbers only the variants that are not
+`#[serde(skip)]` / `skip_deserializing` (de.rs:2400-2404 `deserialized_fields.iter().enumerate()`), and that second
+numbering is the one serde-reflection records in the registry (it drives the derived `Deserialize`).
+A declaration is represented by its list of skip flags. -/
+
+/-- the number `Deserialize` (and hence the traced schema) gives to the variant declared at position `i` -/
+def deIndex (skips : List Bool) (i : Nat) : Nat := ((skips.take i).filter (fun s => !s)).length
+
+/-- the number `Serialize` writes for the variant declared at position `i` -/
+def serIndex (_skips : List Bool) (i : Nat) : Nat := i
+
+/-! ### the observation of one correspondence case (engine `codec`) -/
+
+inductive Kind where
+  /-- a Rust value (universal print); Rust serialises it and reads it back -/
+  | val
+  /-- bytes that must be a complete schema-valid encoding (emitted by the core, or built from the schema) -/
+  | strict
+  /-- arbitrary bytes (mutated / extended encodings) -/
+  | any
+deriving DecidableEq, Repr
+
+structure Case where
+  kind : Kind
+  /-- name used in oracle keys -/
+  root : String
+  R : Registry
+  f : Format
+  /-- `val`: the value, `none` if the Rust value has no counterpart under the schema at all -/
+  v : Option Value
+  /-- `strict` / `any`: the input bytes -/
+  bytes : Bytes
+
+inductive Obs where
+  /-- `val`: bytes written, value read back from them (if reading succeeded, with nothing left) -/
+  | wrote (bytes : Bytes) (back : Option Value)
+  | serError
+  | notInSchema
+  /-- `strict` / `any`: accepted as `v`; `re` = what is written for `v`; `trail` = input bytes were left over -/
+  | accepted (v : Value) (re : Bytes) (trail : Bool)
+  | rejected
+
+/-- fuel the driver gives `dec`: more than any successful decode of `bs` can use under an acyclic-per-byte registry -/
+def fuelFor (R : Registry) (bs : Bytes) : Nat := (bs.length + 1) * (R.length + 1)
+
+/-- `val`: write the value, read it back -/
+def runVal (R : Registry) (f : Format) (v : Value) : Obs :=
+  match dec (depth v) R f (enc v) with
+  | some (v', []) => if v'.beq v then .wrote (enc v) (some v') else .notInSchema
+  | _ => .notInSchema
+
+/-- `strict` / `any`: read the bytes, re-write what was read -/
+def runBytes (R : Registry) (f : Format) (bs : Bytes) : Obs :=
+  match dec (fuelFor R bs) R f bs with
+  | some (v, rest) => .accepted v (enc v) (!rest.isEmpty)
+  | none => .rejected
+
+def run (c : Case) : Obs :=
+  match c.kind with
+  | .val =>
+    match c.v with
+    | none => .notInSchema
+    | some v => runVal c.R c.f v
+  | _ => runBytes c.R c.f c.bytes
+
 end M.Bincode
